@@ -578,6 +578,27 @@ fn twin_router(kind: &str, blocking: bool, ok: bool, code: ErrorCode, nmw: usize
     Some(r)
 }
 
+static E2E_DONE: AtomicU64 = AtomicU64::new(0);
+static E2E_CAP: AtomicU64 = AtomicU64::new(250);
+
+/// One request through a real `repe::Server` on a loopback socket. Socket trouble is reported as
+/// Err and never judged (one-sided: only a response that arrives is compared).
+fn tcp_roundtrip(router: Router, req: &Message) -> Result<Message, &'static str> {
+    use std::io::Write;
+    let server = repe::Server::new(router);
+    let listener = server.listen("127.0.0.1:0").map_err(|_| "bind")?;
+    let addr = listener.local_addr().map_err(|_| "addr")?;
+    std::thread::spawn(move || {
+        let _ = server.serve(listener);
+    });
+    let mut stream = std::net::TcpStream::connect(addr).map_err(|_| "connect")?;
+    stream.set_read_timeout(Some(std::time::Duration::from_secs(20))).map_err(|_| "timeout")?;
+    stream.set_nodelay(true).ok();
+    stream.write_all(&req.to_vec()).map_err(|_| "write")?;
+    stream.flush().ok();
+    repe::read_message(&mut stream).map_err(|_| "read")
+}
+
 /// Final response as the dispatch layer would send it (echo rule + error mapping), canonical text.
 fn norm(req_id: u64, req_query: &[u8], r: Result<Result<Message, RepeError>, String>) -> String {
     let (h, q, b): (Header, Vec<u8>, Vec<u8>) = match r {
@@ -675,6 +696,25 @@ fn exec_twin(out: &mut Out, line: &str, w: &[&str]) -> (String, bool) {
             out.oracle_fail("router.twin.mw_count", &format!("middleware {} of {} ran {} times for 3 dispatches (order {})", i, nmw, n, order), &ops);
         }
     }
+    // end to end: the same request over TCP through the real `Server` (read_message_into →
+    // MessageView → route_request_view → dispatch_view → echo) must give the same response
+    if voff == 8 && qfmt == 1 && E2E_DONE.load(Ordering::SeqCst) < E2E_CAP.load(Ordering::SeqCst) {
+        if let Ok(path) = std::str::from_utf8(&query) {
+            if wrapped.get(path).is_some() {
+                E2E_DONE.fetch_add(1, Ordering::SeqCst);
+                match tcp_roundtrip(wrapped.clone(), &req) {
+                    Ok(m) => {
+                        out.count("twin.e2e.ok");
+                        let got = norm(rid, &query, Ok(Ok(m)));
+                        if got != r0 {
+                            out.oracle_fail(&format!("router.twin.{}.tcp_server", kind), &format!("the TCP server answered\n  {}\nbut plain.handle answered\n  {}", got, r0), &ops);
+                        }
+                    }
+                    Err(e) => out.count(&format!("twin.e2e.io_error.{}", e)),
+                }
+            }
+        }
+    }
     let exec = exec_name(hw.execution());
     if blocking && exec != "offreader" {
         out.oracle_fail("router.twin.execution_lost", &format!("blocking handler behind {} middleware reports {}", nmw, exec), &ops);
@@ -733,7 +773,6 @@ fn exec_line(out: &mut Out, sc: &mut Scen, line: &str) {
             out.config(line);
         }
         "get" => {
-            out.begin(line);
             let (obs, nt) = match s(2) {
                 Some(p) => exec_get(out, sc, line, idx, &p),
                 None => (format!("{} bad-op", idx), false),
@@ -741,7 +780,6 @@ fn exec_line(out: &mut Out, sc: &mut Scen, line: &str) {
             out.case(line, &obs, nt);
         }
         "match" => {
-            out.begin(line);
             let (obs, nt) = match (w.get(2), s(3), s(4)) {
                 (Some(k), Some(pre), Some(p)) => exec_match(out, line, idx, k, &pre, &p),
                 _ => (format!("{} bad-op", idx), false),
@@ -1012,7 +1050,7 @@ impl Gen {
 }
 
 const KINDS: &[&str] = &["json", "jsonctx", "typed", "typedctx", "adapter", "slice", "sliceref", "registry", "struct"];
-const BFMTS: &[u16] = &[0, 1, 2, 3, 4, 5, 255, 4095, 4096, 65535];
+const BFMTS: &[u16] = &[0, 1, 1, 1, 2, 2, 3, 3, 4, 255, 4096, 65535];
 
 /// Does each uninterpreted decoder accept these bytes (for the kind's target type)?  The model
 /// takes the decoders' verdicts as given (DESIGN §5) and computes gate / closure / framing.
@@ -1048,7 +1086,7 @@ fn generate(args: &Args) -> Vec<String> {
     for p in ["", "/", "/~01", "/~10", "/a~1b/~0~1", "//", "/a/"] {
         g.push("tok", &shex(p));
     }
-    let (n_scen, n_pairs, n_struct, n_twin_rounds) = if thorough { (2500, 30000, 40000, 60) } else { (150, 2500, 4000, 4) };
+    let (n_scen, n_pairs, n_struct, n_twin_rounds) = if thorough { (8000, 100000, 120000, 200) } else { (500, 8000, 12000, 10) };
     for _ in 0..n_scen {
         g.scenario();
     }
@@ -1076,11 +1114,14 @@ fn main() {
     let args = Args::parse();
     quiet_panics();
     let mut out = Out::new(&args.out);
-    out.rule = "(i) random registration orders of routes (all with_* registrars), registry mounts, struct mounts and tracing middleware over small overlapping path pools, a `get` after every registration; non-trivial = some middleware or mount present. (ii) prefix/path pairs built from the prefix (itself, normalised, minus a char, plus tails with and without '/'); (iii) struct mounts with relative paths of 0..40 segments biased to 15/16/17/18/40, empty segments, well-formed ~0/~1 escapes; (iv) every handler kind x body-format codes {0..5,255,4095,4096,65535} x valid/near-valid/arbitrary bodies through handle/handle_with_ctx/handle_view of the plain, blocking and middleware-wrapped handler; non-trivial = reaches the decoder or a known format code".into();
+    out.rule = "(i) random registration orders of routes (all with_* registrars), registry mounts, struct mounts and tracing middleware over small overlapping path pools, a `get` after every registration; non-trivial = some middleware or mount present. (ii) prefix/path pairs built from the prefix (itself, normalised, minus a char, plus tails with and without '/'); (iii) struct mounts with relative paths of 0..40 segments biased to 15/16/17/18/40, empty segments, well-formed ~0/~1 escapes; (iv) every handler kind x body-format codes {0..4,255,4096,65535} x valid/near-valid/arbitrary bodies through handle/handle_with_ctx/handle_view of the plain, blocking and middleware-wrapped handler; non-trivial = reaches the decoder or a known format code".into();
     let lines = match args.replay_ops() {
         Some(l) => l,
         None => generate(&args),
     };
+    if args.thorough() {
+        E2E_CAP.store(600, Ordering::SeqCst);
+    }
     let mut sc = Scen::new();
     for line in &lines {
         exec_line(&mut out, &mut sc, line);
